@@ -235,6 +235,16 @@ fn monitor(bytes: &[u8], cap: usize, accepted: &[(Cmd, u8, usize, Vec<u8>)]) -> 
 }
 
 pub fn run_case(case: &Case, rep: &mut Report) {
+    // a push / mark / send that panics is reported with the case instead of killing the run
+    let r = std::panic::catch_unwind(std::panic::AssertUnwindSafe(|| run_case_inner(case, rep)));
+    if r.is_err() {
+        let line = case.to_line();
+        rep.fail("c04/panic", "building or sending the frame panicked", &line);
+        rep.case(line, "panic".into());
+    }
+}
+
+fn run_case_inner(case: &Case, rep: &mut Report) {
     let line = case.to_line();
     let st = dyn_storage(1, case.cap);
     st.set_counters(0, case.idx0);
